@@ -79,6 +79,7 @@ type Point struct {
 	RunningEnabled bool  // alternative 0 is "stay on the running thread"
 	Chosen         int
 	Label          string
+	Asleep         []bool // per enabled thread: in the sleep set at this point (sleep-set reduction)
 }
 
 // Access is one recorded access to a shared object (reported by the harness file system).
@@ -127,6 +128,7 @@ type Exec struct {
 	Deadlock    string // non-empty on deadlock (wait-for description)
 	Horizon     bool   // step limit hit
 	Divergence  string // replay divergence (harness error)
+	SleepBlocked bool  // abandoned: every enabled thread was in the sleep set (redundant execution)
 	LiveThreads []string // threads (created through Go) still alive when main returned
 	Races       []Race
 	Steps       int
@@ -151,6 +153,9 @@ type Sched struct {
 	TickBudget int
 	KeepTrace  bool
 	TrackRaces bool
+	UseSleep   bool  // sleep-set reduction (thread-start transitions commute with everything)
+	SleepAt    []int // thread ids asleep at the last choice point of the prefix
+	sleep      map[int]bool
 	accesses   map[string][]Access
 	raceKeys   map[string]bool
 	lockVCs    map[interface{}]*lockVC
@@ -309,23 +314,56 @@ func (s *Sched) reschedule(from *thread) {
 		s.fail(func(x *Exec) { x.Deadlock = strings.Join(w, "; ") })
 	}
 	idx := 0
+	k := len(s.x.Points)
+	past := k >= len(s.prefix) // beyond the replayed prefix
 	if len(enabled) > 1 {
 		p := Point{Kind: ThreadChoice, N: len(enabled), RunningEnabled: fromEnabled}
 		for _, t := range enabled {
 			p.Enabled = append(p.Enabled, t.id)
 		}
-		k := len(s.x.Points)
-		if k < len(s.prefix) {
+		if !past {
 			idx = s.prefix[k]
 			if idx < 0 || idx >= len(enabled) {
 				s.fail(func(x *Exec) {
 					x.Divergence = fmt.Sprintf("choice %d at point %d out of range (enabled %v)", idx, k, p.Enabled)
 				})
 			}
+			if s.UseSleep && k == len(s.prefix)-1 {
+				s.sleep = map[int]bool{}
+				for _, id := range s.SleepAt {
+					s.sleep[id] = true
+				}
+			}
+		} else if s.UseSleep {
+			p.Asleep = make([]bool, len(enabled))
+			idx = -1
+			for i, t := range enabled {
+				p.Asleep[i] = s.sleep[t.id]
+				if idx < 0 && !p.Asleep[i] {
+					idx = i
+				}
+			}
+			if idx < 0 {
+				s.x.Points = append(s.x.Points, p)
+				s.fail(func(x *Exec) { x.SleepBlocked = true })
+			}
 		}
 		p.Chosen = idx
 		p.Label = enabled[idx].pending.label
 		s.x.Points = append(s.x.Points, p)
+	} else if past && s.UseSleep && s.sleep[enabled[0].id] {
+		s.fail(func(x *Exec) { x.SleepBlocked = true })
+	}
+	if s.UseSleep && len(s.sleep) > 0 {
+		nx := enabled[idx]
+		delete(s.sleep, nx.id)
+		if nx.pending.label != "start" {
+			for id := range s.sleep {
+				if t := s.threads[id]; t.pending == nil || t.pending.label != "start" {
+					delete(s.sleep, id)
+				}
+			}
+		}
 	}
 	next := enabled[idx]
 	if s.KeepTrace {
@@ -853,22 +891,24 @@ type Explorer struct {
 	Bound    int // maximal number of preemptions; <0 = unbounded
 	Deadline time.Time
 	MaxExecs int64
-	Run      func(prefix []int) *Exec
+	Run      func(prefix []int, sleep []int) *Exec
 	Check    func(x *Exec) bool // return false to stop the exploration
 
 	Execs     int64
 	Points    int64
-	Truncated bool // a cap or deadline ended the search early
+	Skipped   int64 // alternatives not taken because of the preemption bound
+	Blocked   int64 // executions abandoned by the sleep-set reduction
+	Truncated bool  // a cap or deadline ended the search early
 	Stopped   bool
 	MaxDepth  int
 }
 
 // Explore enumerates all executions within the bound.
 func (e *Explorer) Explore() {
-	e.explore(nil)
+	e.explore(nil, nil)
 }
 
-func (e *Explorer) explore(prefix []int) {
+func (e *Explorer) explore(prefix []int, sleep []int) {
 	if e.Stopped || e.Truncated {
 		return
 	}
@@ -876,15 +916,19 @@ func (e *Explorer) explore(prefix []int) {
 		e.Truncated = true
 		return
 	}
-	x := e.Run(prefix)
-	e.Execs++
-	e.Points += int64(len(x.Points))
-	if len(x.Points) > e.MaxDepth {
-		e.MaxDepth = len(x.Points)
-	}
-	if !e.Check(x) {
-		e.Stopped = true
-		return
+	x := e.Run(prefix, sleep)
+	if x.SleepBlocked {
+		e.Blocked++
+	} else {
+		e.Execs++
+		e.Points += int64(len(x.Points))
+		if len(x.Points) > e.MaxDepth {
+			e.MaxDepth = len(x.Points)
+		}
+		if !e.Check(x) {
+			e.Stopped = true
+			return
+		}
 	}
 	if x.Divergence != "" {
 		return
@@ -893,18 +937,45 @@ func (e *Explorer) explore(prefix []int) {
 	for i := 0; i < len(x.Points); i++ {
 		p := x.Points[i]
 		if i >= len(prefix) {
-			for alt := 1; alt < p.N; alt++ {
+			// threads asleep at this point, plus the default choice and the alternatives already explored
+			var asleep []int
+			if p.Kind == ThreadChoice && p.Asleep != nil {
+				for j, a := range p.Asleep {
+					if a {
+						asleep = append(asleep, p.Enabled[j])
+					}
+				}
+				if p.Chosen >= 0 && p.Chosen < len(p.Enabled) {
+					asleep = append(asleep, p.Enabled[p.Chosen])
+				}
+			}
+			for alt := 0; alt < p.N; alt++ {
+				if alt == p.Chosen {
+					continue
+				}
+				if p.Kind == ThreadChoice && p.Asleep != nil && p.Asleep[alt] {
+					continue
+				}
+				if p.Kind == DataChoice && alt < p.Chosen {
+					continue
+				}
 				c := cost
-				if p.Kind == ThreadChoice && p.RunningEnabled {
+				if p.Kind == ThreadChoice && p.RunningEnabled && alt != 0 {
 					c++
 				}
 				if e.Bound >= 0 && c > e.Bound {
+					e.Skipped++
 					continue
 				}
 				np := make([]int, i+1)
 				copy(np, x.Choices[:i])
 				np[i] = alt
-				e.explore(np)
+				var sl []int
+				if p.Kind == ThreadChoice && p.Asleep != nil {
+					sl = append([]int(nil), asleep...)
+					asleep = append(asleep, p.Enabled[alt])
+				}
+				e.explore(np, sl)
 				if e.Stopped || e.Truncated {
 					return
 				}
